@@ -86,6 +86,7 @@ type FuncContract struct {
 	Defines  []Expr // leaves always defined by the function
 	NoBody   bool
 	Reveal   map[string]bool
+	Asserts  map[string][]*Clause // call site (callee#ordinal) -> ghost assertions proved, then assumed, just before the call
 	LocalAssume map[string]*Clause // assumptions on float-derived locals (listed in evidence)
 	Allocates bool
 	Exported  bool
@@ -98,6 +99,7 @@ type Lemma struct {
 	Body   Expr
 	Tags   []string
 	Assumed bool
+	Using  []Expr
 	Why    string
 	Src    string
 }
@@ -433,7 +435,7 @@ var clauseKW = map[string]bool{
 	"func": true, "requires": true, "ensures": true, "assigns": true, "nilable": true, "fresh": true,
 	"trusted": true, "layer": true, "loop": true, "props": true, "define": true, "lemma": true,
 	"global": true, "outs": true, "operands": true, "defines": true, "hint": true, "pure": true,
-	"allocates": true, "exported": true, "axiom": true, "local": true, "reveal": true,
+	"allocates": true, "exported": true, "axiom": true, "local": true, "reveal": true, "assert": true, "using": true,
 }
 
 var tagRe = regexp.MustCompile(`^\{([A-Za-z0-9_,\- ]*)\}\s*`)
@@ -621,6 +623,22 @@ func ParseSpecFile(path string) (*Spec, error) {
 				default:
 					panic(fmt.Sprintf("line %d: bad loop clause kind %s", l.no, f[1]))
 				}
+			case "assert":
+				// assert before CALLEE#N: EXPR
+				if !strings.HasPrefix(rest, "before ") {
+					panic(fmt.Sprintf("line %d: assert needs 'before <callee>#<n>:'", l.no))
+				}
+				r := strings.TrimSpace(rest[7:])
+				k := strings.Index(r, ": ")
+				if k < 0 {
+					panic(fmt.Sprintf("line %d: assert needs ':'", l.no))
+				}
+				site := strings.TrimSpace(r[:k])
+				tags, name, ex := splitTags(strings.TrimSpace(r[k+2:]))
+				if cur.Asserts == nil {
+					cur.Asserts = map[string][]*Clause{}
+				}
+				cur.Asserts[site] = append(cur.Asserts[site], &Clause{Kind: "assert", Tags: tags, Name: name, E: mustExpr(ex, l.no), Src: ex})
 			case "reveal":
 				if cur.Reveal == nil {
 					cur.Reveal = map[string]bool{}
@@ -660,6 +678,12 @@ func ParseSpecFile(path string) (*Spec, error) {
 				}
 				body := mustExpr(tail[1:], l.no)
 				sp.Lemmas = append(sp.Lemmas, &Lemma{Name: name, Params: params, Body: body, Tags: tags, Assumed: kw == "axiom", Src: tail[1:]})
+			case "using":
+				if len(sp.Lemmas) == 0 {
+					panic(fmt.Sprintf("line %d: using without lemma", l.no))
+				}
+				lm := sp.Lemmas[len(sp.Lemmas)-1]
+				lm.Using = append(lm.Using, mustExpr(rest, l.no))
 			case "global":
 				// global NAME: expr      or   global NAME[i]: expr
 				k := strings.Index(rest, ":")
